@@ -75,6 +75,10 @@ pub struct LevelCfg {
     pub times: Vec<u8>,
     pub max_batches: usize,
     pub p_multi: usize,
+    /// percent of dynamic systems with a very wide access set (9..14 writes)
+    pub p_wide: usize,
+    /// percent chance per position of a registration attempt that fails and is caught
+    pub p_failed: usize,
 }
 
 impl LevelCfg {
@@ -100,6 +104,8 @@ impl LevelCfg {
             times: vec![1, 2, 3, 3, 3, 4, 5],
             max_batches: 3,
             p_multi: 25,
+            p_wide: 1,
+            p_failed: 2,
         }
     }
 }
@@ -174,6 +180,8 @@ pub fn cfg_for(p: Profile, rng: &mut Rng) -> LevelCfg {
         Profile::Huge => {
             c.n = (200, 600);
             c.p_dep = 4;
+            c.p_dup_dep = 12;
+            c.p_wide = 0;
             c.p_barrier = 1;
             c.p_static = 5;
             if rng.chance(1, 2) {
@@ -200,7 +208,7 @@ pub fn cfg_for(p: Profile, rng: &mut Rng) -> LevelCfg {
             c.tl = (0, 3);
             c.p_unnamed = rng.range(0, 30);
             c.p_noaccess = rng.range(0, 30);
-            let k = rng.range(2, NSLOTS);
+            let k = rng.range(2, NSTD);
             c.slots = pick_slots(rng, &all, k);
             c.max_r = rng.range(0, 4);
             c.max_w = rng.range(0, 3);
@@ -272,10 +280,17 @@ impl<'r> Gen<'r> {
         let ntl = self.rng.range(c.tl.0, c.tl.1);
         let mut tl_left = ntl;
         for i in 0..n {
+            if c.p_failed > 0 && self.rng.chance(c.p_failed, 100) {
+                items.push(Item::Failed(self.rng.below(2) as u8));
+            }
             if i > 0 && self.rng.chance(c.p_barrier, 100) {
                 let reps = if c.edge_barriers && self.rng.chance(1, 4) { 2 } else { 1 };
                 for _ in 0..reps {
                     items.push(Item::Barrier);
+                }
+                // the call right after a barrier is rejected now and then
+                if c.p_failed > 0 && self.rng.chance(1, 6) {
+                    items.push(Item::Failed(self.rng.below(2) as u8));
                 }
                 for x in named.iter_mut() {
                     x.1 = false;
@@ -297,6 +312,8 @@ impl<'r> Gen<'r> {
                 ic.depth_left = c.depth_left - 1;
                 ic.n = (1, 5);
                 ic.edge_barriers = self.rng.chance(1, 4);
+                // barriers inside a batch's builder (none / some / several)
+                ic.p_barrier = *self.rng.pick(&[0usize, c.p_barrier, 20, 45]);
                 ic.tl = (0, if self.rng.chance(1, 3) { 2 } else { 0 });
                 ic.fancy_names = false;
                 let mut inner = self.level(&ic);
@@ -325,6 +342,16 @@ impl<'r> Gen<'r> {
             } else {
                 let (r, w) = if self.rng.chance(c.p_noaccess, 100) {
                     (vec![], vec![])
+                } else if c.p_wide > 0 && self.rng.chance(c.p_wide, 100) {
+                    // a system with a very wide access set (more ids than any small-vector or
+                    // bit-set shortcut in the library would hold), listed in arbitrary order
+                    let mut all: Vec<Slot> = Slot::all().collect();
+                    self.rng.shuffle(&mut all);
+                    let nw = self.rng.range(9, 14);
+                    let nr = self.rng.range(0, 13);
+                    let w: Vec<Slot> = all[..nw].to_vec();
+                    let r: Vec<Slot> = all[nw..nw + nr].to_vec();
+                    (r, w)
                 } else {
                     let w = self.subset(&c.slots, c.max_w);
                     let pool: Vec<Slot> = c.slots.iter().filter(|s| !w.contains(s)).cloned().collect();
